@@ -287,3 +287,19 @@ Qed.
 (* ------------------------------------------------------------------ cartopy *)
 Lemma cartopy_bounds_eq (a : area R) : cartopy_bounds a = (xmin a, xmax a, ymin a, ymax a).
 Proof. unfold cartopy_bounds. apply gen_cartopy_bounds_char. Qed.
+
+(* ------------------------------------------------------------------ one-pixel axes: the guard of the CF theorems.
+   A CF coordinate variable holds pixel centres only, so a one-element axis carries no spacing; the code does not
+   return an area for it (ZeroDivisionError), which is what load_axis_raises records. *)
+Lemma cf_one_pixel_axis_raises (v : Z -> R) : load_axis_raises RO v 1 = true.
+Proof. unfold load_axis_raises. reflexivity. Qed.
+
+Lemma cf_regular_axis_loads v0 s nb : (2 <= nb)%Z -> s <> 0 ->
+  load_axis_raises RO (fun i => v0 + IZR i * s) nb = false.
+Proof.
+  intros Hn Hs. unfold load_axis_raises. destruct (load_axis_affine v0 s nb Hn Hs) as (_ & _ & _ & S).
+  apply Bool.orb_false_iff. split.
+  - apply Z.eqb_neq. lia.
+  - cbn [eqb RO]. unfold Reqb. destruct (Req_EM_T _ _) as [E|E]; [|reflexivity].
+    exfalso. apply Hs. rewrite <- S. cbn [ofZ RO] in E. rewrite E. lra.
+Qed.
